@@ -105,6 +105,7 @@ Proof.
     destruct (free_cluster_chain_effect 0 v fsz s2 h rest fu L Hst2 Hch2) as (s' & Hrun3 & Heff).
     pose proof (fr_free _ _ _ _ _ _ _ Heff) as F23.
     exists s', [h]. split; [rewrite (bind_ok _ _ _ _ _ Hrun2); exact Hrun3|]. split; [|intros x [<-|[]]; reflexivity].
+    split; [exact (val_free 0%nat v v fsz s2 h rest s' _ (geo_eq_refl v) (val_same v fsz _ _ _ _ (val_refl v fsz _) F12) Heff)|].
     exists ([] ++ (h :: rest)), ([blk] ++ []). split; [exact (fr_trans v fsz _ _ _ _ _ _ _ F12 F23)|].
     split.
     { intros x [<-|[]]. apply in_or_app. left. unfold heads. apply in_or_app. right.
@@ -117,6 +118,7 @@ Proof.
     apply (fe_frame _ _ _ _ _ _ _ Heff). exact Hoffb.
   - (* an empty file: nothing to free *)
     exists s2, []. split; [rewrite (bind_ok _ _ _ _ _ Hrun2); exact (free_reserved 0 _ s2 Hlt)|]. split; [|intros x []].
+    split; [exact (val_same v fsz _ _ _ _ (val_refl v fsz _) F12)|].
     exists [], [blk]. split; [exact F12|]. split; [intros x []|]. split; [intros x []|]. split; [intros c []|]. split.
     { intros j [<-|[]]. right. right. left. eexists. eexists. reflexivity. }
     intros j off b E. injection E as <- <- <-. change (e_block e) with blk. change (e_offset e) with (i * 32). apply Hslot. reflexivity.
@@ -203,7 +205,8 @@ Lemma ff_mkdir_prefix fsz total v hs parent sfn s c s1 :
   exists s6 v1,
     make_dir 0 parent sfn A_DIRECTORY s = mkdir_rest 0 parent sfn c s6 /\
     prefix_ok fsz 0 v hs (if parent =? CL_ROOT then CL_EMPTY else parent) s c s6 v1 /\
-    s_vols s6 = [v1] /\ fr v fsz [c] (cluster_blocks v c) (s_disk s) (s_disk s6).
+    s_vols s6 = [v1] /\ fr v fsz [c] (cluster_blocks v c) (s_disk s) (s_disk s6) /\
+    val_ok v fsz (s_disk s) (s_disk s6).
 Proof.
   intros Ev Hfit Hpre L Hbw W Hal. set (vi := 0%nat) in *.
   pose proof Hpre as ((Hnf & Hc & Hvi & Hlen) & FL & Hh). pose proof (fl_vol v fsz FL) as Hv.
@@ -282,7 +285,10 @@ Proof.
       assert (F16 : fr v fsz [] (cluster_blocks v c) (s_disk s1) (s_disk s6)).
       { apply (fr_fat_same v fsz _ _ _ Hfs16). intros j _ Hnc. apply Hout6.
         rewrite in_cluster_blocks_iff in Hnc. unfold in_cluster in Hnc. fold start in Hnc. lia. }
-      exact (fr_trans v fsz _ _ _ _ _ _ _ Fa F16). }
+      split; [exact (fr_trans v fsz _ _ _ _ _ _ _ Fa F16)|].
+      apply (val_same v fsz _ (s_disk s1) _ (cluster_blocks v c)); [|exact F16].
+      apply (val_alloc vi v v fsz None false s c s1 (s_disk s) (geo_eq_refl v) (val_refl v fsz _) Heff); [|discriminate].
+      repeat split; assumption. }
   constructor.
   - rewrite Hvols6. exact Evols.
   - exact G1.
@@ -328,6 +334,7 @@ Qed.
    tg = the head of the parent's chain when it was extended; sl = the slot that received the entry *)
 Definition rest_shape (fsz : N) (v : vol) (hs : list N) (parent : N) (pbl : list N) (s : st) (c : N) (d6 d' : disk)
                       (tg : list N) (sl : option (N * N * list N)) : Prop :=
+  (val_ok v fsz (s_disk s) d6 -> val_ok v fsz (s_disk s) d') /\
   exists F B, fr v fsz F B d6 d' /\ incl tg hs /\ (forall x, In x tg -> x = dir_first_cluster v parent) /\
     (forall x, In x F -> x = c \/ In x (flat_map (chain_l (s_disk s) v) tg) \/ free_cl (s_disk s) v x) /\
     (forall j, In j B -> (exists c2, free_cl (s_disk s) v c2 /\ In j (cluster_blocks v c2)) \/
@@ -372,7 +379,9 @@ Proof.
     assert (Hlb : length bytes = 32%nat) by (unfold bytes; apply ser_bytes_length; exact Hname).
     exists (Ok tt), s', [], (Some (blk, off, bytes)). split.
     { unfold mkdir_rest. rewrite (bind_ok _ _ _ _ _ (try_ok _ _ _ _ Erun)). reflexivity. }
-    exists [], [blk]. split; [rewrite Hd'; apply fr_set; apply off_fat_in_fat; exact Nfat|].
+    assert (Fs : fr v fsz [] [blk] (s_disk s6) (s_disk s')) by (rewrite Hd'; apply fr_set; apply off_fat_in_fat; exact Nfat).
+    split; [intros H6; exact (val_same v fsz _ _ _ _ H6 Fs)|].
+    exists [], [blk]. split; [exact Fs|].
     split; [intros x []|]. split; [intros x []|]. split; [intros x []|]. split.
     - intros j [<-|[]]. right. eexists. eexists. reflexivity.
     - intros j off0 b0 E. injection E as <- <- <-. split; [exact Hlb|]. split; [exact Hdir|].
@@ -396,9 +405,12 @@ Proof.
     pose proof Hpret as (Hstt & _).
     destruct (free_cluster_chain_effect vi v1 fsz t c [] (walk_fuel v1) FL1 Hstt Hcht) as (s' & Efree & Heff).
     pose proof (fr_free _ _ _ _ _ _ _ Heff) as Ff. rewrite Hd in Ff. apply (fr_geo v1 v fsz _ _ _ _ G') in Ff.
+    assert (Vf : val_ok v fsz (s_disk s) (s_disk s6) -> val_ok v fsz (s_disk s) (s_disk s')).
+    { intros H6. apply (val_free vi v v1 fsz t c [] s' _ G); [rewrite Hd; exact H6|exact Heff]. }
     exists (Err NotEnoughSpace), s', [], None. split.
     { unfold mkdir_rest. rewrite (bind_ok _ _ _ _ _ (try_err _ _ _ _ Ewn)).
       rewrite (bind_ok _ _ _ _ _ Efree). reflexivity. }
+    split; [exact Vf|].
     exists [c], []. split; [exact Ff|]. split; [intros x []|]. split; [intros x []|]. split.
     - intros x [<-|[]]. left. reflexivity.
     - split; [intros j []|]. intros j off b E. discriminate E. }
@@ -519,6 +531,10 @@ Proof.
       { rewrite Hd0', Hd0. apply fr_set. exact (PrGlobalOpen2.cluster_block_off_fat fsz v c' nb FL R1 Hnbin). }
       exists (Ok tt), s', [pc], (Some (nb, 0, bytes)). split.
       { unfold mkdir_rest. rewrite (bind_ok _ _ _ _ _ (try_ok _ _ _ _ Ewn)). reflexivity. }
+      split.
+      { intros H6. apply (val_same v fsz _ (s_disk s8) _ [nb]); [|exact F8'].
+        apply (val_alloc vi v v1 fsz (Some p) true s7 c' s8 _ G); [rewrite Hd7; exact H6|exact Heff|exact Hfree'|].
+        intros E. injection E as E. apply Hpnz. rewrite E. exact R3. }
       exists ([c'; p] ++ []), (cluster_blocks v c' ++ [nb]). split; [exact (fr_trans v fsz _ _ _ _ _ _ _ Fa F8')|].
       split; [intros x [<-|[]]; exact Hpc|]. split; [intros x [<-|[]]; reflexivity|]. split.
       { intros x [<-|[<-|[]]]; right; [right; exact Hfree'|left].
@@ -556,14 +572,15 @@ Proof.
     split; [unfold make_dir; exact (bind_err _ _ _ _ _ Hal)|]. split; [apply call_frame_same; exact Hd1|].
     split; [intros x []|intros j off b E; discriminate E].
   - destruct (ff_mkdir_prefix fsz total v hs parent sfn s c s1 Ev Hfit Hpre L Hbw W Hal)
-      as (s6 & v1 & Erun & PX & Ev6 & F06).
+      as (s6 & v1 & Erun & PX & Ev6 & F06 & V06).
     destruct (ff_mkdir_rest fsz total v hs parent sfn pbl s c s6 v1 L Hfit Hbl Hhead Hname PX Ev6)
-      as (r & s' & tg & sl & Erest & (F & B & F6 & Htg & Htgd & HF & HB & Hsl)).
+      as (r & s' & tg & sl & Erest & (V6 & F & B & F6 & Htg & Htgd & HF & HB & Hsl)).
     rewrite Erest in Erun.
     destruct (mk_range _ _ _ _ _ _ (px_cluster _ _ _ _ _ _ _ _ _ PX)) as (C1 & C2 & C3).
     assert (Hfree : free_cl (s_disk s) v c) by (repeat split; assumption).
     exists r, s', tg, sl. split; [exact Erun|]. split; [|split; [exact Htgd|]].
-    + exists ([c] ++ F), (cluster_blocks v c ++ B). split; [exact (fr_trans v fsz _ _ _ _ _ _ _ F06 F6)|].
+    + split; [exact (V6 V06)|].
+      exists ([c] ++ F), (cluster_blocks v c ++ B). split; [exact (fr_trans v fsz _ _ _ _ _ _ _ F06 F6)|].
       split; [exact Htg|]. split; [intros x []|]. split.
       { intros x Hx. cbn [app] in Hx. destruct Hx as [<-|Hx]; [right; exact Hfree|].
         destruct (HF x Hx) as [->|[H|H]]; [right; exact Hfree|left; exact H|right; exact H]. }
